@@ -39,4 +39,32 @@ CLAIMED = {
              "time.After, select; the Go scheduler's timing (the theorem covers event order, not delays). Known "
              "finding: a ghost waiter left by a timed-out call steals the next Signal (known_findings.jsonl).",
         tech="Lean 4 proofs (induction, protocol invariant over all schedules) + differential correspondence + timed scenarios"),
+    "C09": dict(
+        text="Machine-checked refinement proofs (Lean 4 kernel): the MemDisk model and the FileDisk model (system calls "
+             "over a modelled OS file, blocks laid out at a*4096) produce, for every history of "
+             "Read/ReadTo/Write/Size/Barrier with arbitrary addresses, buffers and buffer re-use, exactly the replies of "
+             "an array of independent registers, leave the client heap in the same state, hence agree with each other; "
+             "spec-level theorems give last-write, frame, constant size, refusals and non-aliasing. Tied to the code by "
+             "the regenerated declarations of machine/disk and machine/async_disk (canonical text, evaluated constants, "
+             "resolved aliases: rfl against committed expectations) and by running the six real variants against the "
+             "compiled models and an executable specification, with shrinking of any disagreement.",
+        ref="DESIGN.md §6 C09",
+        note="Trusted: the OS-file model (pread/pwrite/ftruncate), the hand-written models (tied by canonical text + "
+             "sampling), offsets in unbounded Nat (exact below 2^51 blocks). ReadTo into non-block buffers is outside "
+             "the quantifier (implementations differ there by design) and is compared with the models only.",
+        tech="Lean 4 refinement proof (simulation, induction over histories) + regenerated facts + differential correspondence"),
+    "C11": dict(
+        text="Machine-checked proofs (Lean 4 kernel) over the OS-file model: opening an image of any previous length "
+             "yields exactly the requested number of blocks with retained bytes preserved and new bytes zero; after any "
+             "valid history followed by close or kill at any point and reopen with any size, the registers are those of "
+             "the specification cut or zero-extended; the opened disk refines the register array. Failure surfacing is "
+             "tied by the pinned bodies (every unix error is followed by panic/return) and exercised by strace fault "
+             "injection at every pwrite64/pread64/fsync/ftruncate/fstat index (single and persistent failures, several "
+             "errnos), syscall-trace conformance (an ok reply must be backed by a successful system call) and kill at "
+             "every pwrite64 followed by reopen.",
+        ref="DESIGN.md §6 C11",
+        note="Trusted: OS-file model; fsync per POSIX; power-loss durability of the host file system is not reached; "
+             "strace injection (per-thread counting, pinned child). One genuine defect was found by this check and "
+             "repaired in /repo (fix: d44e103, known_findings.jsonl).",
+        tech="Lean 4 proofs over an OS-file model + regenerated facts + differential correspondence + strace fault/kill injection"),
 }
